@@ -714,7 +714,7 @@ func (v *Verifier) VerifyFunc(fc *FuncContract) (res *FuncResult) {
 			}
 			t, err := penv.Goal(en.E)
 			if err != nil {
-				if !strings.Contains(err.Error(), "unknown identifier") {
+				if !staleRef(err) {
 					unsup("ensures: %v", err)
 				}
 				// the clause names a call or local that no longer exists
